@@ -65,7 +65,7 @@ def plan(tier, seed):
     specs.extend(big.specs(tier, seed, 'C11'))
     meta = dict(
         rule=RULE,
-        require=['big_histories', 'copies', 'source_unchanged_checks', 'target_checks',
+        require=['big_histories', 'huge_histories', 'copies', 'source_unchanged_checks', 'target_checks',
                  'copy_vars_checks', 'targets_with_dynamic_reordering',
                  'copy_vars_refusals'] +
                 ['entry_' + e for e in ENTRY],
